@@ -17,7 +17,7 @@ TIER_CAPS = {  # per-query caps: (timeout s, address-space GB)
 class Query:
     def __init__(self, name, unit, entry, unwind=10, unwindset=(), flags=(), object_bits=10, checks='none',
                  tier='quick', replay='native', bounds=None, about='', known=None, expect_witness=True,
-                 mutate_vectors=4, timeout=None, mem_gb=None, expect_fail=()):
+                 mutate_vectors=4, timeout=None, mem_gb=None, expect_fail=(), loop_bounds=()):
         self.name = name; self.unit = unit; self.entry = entry; self.unwind = unwind
         self.unwindset = list(unwindset); self.flags = list(flags); self.object_bits = object_bits
         self.checks = checks; self.tier = tier; self.replay = replay
@@ -26,7 +26,8 @@ class Query:
         self.expect_witness = expect_witness
         self.mutate_vectors = mutate_vectors
         self.timeout = timeout; self.mem_gb = mem_gb
-        self.expect_fail = list(expect_fail)   # descriptions of further assertions that must FAIL (reachability twins)
+        self.expect_fail = list(expect_fail)
+        self.loop_bounds = list(loop_bounds)   # descriptions of further assertions that must FAIL (reachability twins)
 
 
 def load_known():
@@ -85,7 +86,7 @@ class Check:
 
         # 2. solve
         def solve(q):
-            cmd = pl.cbmc_cmd(q.unit.cfile, q.entry, q.unwind, q.unwindset, q.flags + ['--trace'], q.object_bits, q.checks)
+            cmd = pl.cbmc_cmd(q.unit.cfile, q.entry, q.unwind, q.unwindset + pl.loop_unwindset(q.unit.cfile, q.entry, q.loop_bounds), q.flags + ['--trace'], q.object_bits, q.checks)
             res = pl.run_cbmc(cmd, q.timeout or cap_t, q.mem_gb or cap_m, log=os.path.join(wd, q.name + '.cbmc.log'))
             res['cmd'] = ' '.join(pl.sh_quote(c) for c in cmd)
             return q, res
@@ -98,7 +99,7 @@ class Check:
         violations = []; known_lines = []; records = []; validated = 0
         for q, res in results:
             rec = {'query': q.name, 'entry': q.entry, 'unit': q.unit.key, 'config': q.unit.config, 'about': q.about,
-                   'bounds': dict(q.bounds, unwind=q.unwind, unwindset=q.unwindset, object_bits=q.object_bits),
+                   'bounds': dict(q.bounds, unwind=q.unwind, unwindset=q.unwindset, loop_bounds=q.loop_bounds, object_bits=q.object_bits),
                    'stats': res['stats'], 'wall_s': res['wall_s'], 'status': res['status'], 'ir': q.unit.info}
             records.append(rec)
             if res['status'] != 'done' or res.get('error') or not res['props']:
